@@ -645,3 +645,432 @@ def r_orderonly_guard(prog, rep):
     asg = [n for n in f.nodes if n.get("k") == "bin" and n["op"] == "=" and expr_str(n.child("l")) == "request.orderOnly"]
     r.check(any(expr_str(core(n.child("r"))) == "keyAndFlag.orderOnly" for n in asg), "processRuleScanRequest|flag-from-record", "",
             "request.orderOnly is not taken from the recorded dependency", f)
+
+
+# =====================================================================  C05
+def r_cancel_drain(prog, rep):
+    r = rep.rule("R-CANCEL-DRAIN",
+                 "the cancellation routine touches rule/task state only after the drain loop has seen "
+                 "numOutstandingUnfinishedTasks == 0; its wait tests finishedTaskInfos.empty() and waits in one critical "
+                 "section of finishedTaskInfosMutex", floor=8)
+    f = efn(prog, "cancelRemainingTasks")
+    bf = BranchFacts(f, kill="assign")
+    touched = []
+    for n in f.nodes:
+        if n.get("k") == "call":
+            nm = (n.get("fn") or "").split("::")[-1]
+            if nm in ("setCancelled", "setPendingTaskInfo") or (nm == "clear" and "obj" in n and core(n.child("obj")).get("k") == "member"
+                                                                and expr_str(core(n.child("obj"))) != "finishedTaskInfos"):
+                touched.append(n)
+        if n.get("k") == "bin" and n["op"] == "=" and "result." in expr_str(n.child("l")):
+            touched.append(n)
+    for n in touched:
+        st = facts_at(bf, n)
+        r.check(has(st, "numOutstandingUnfinishedTasks", True, ("==", "0")), "cancelRemainingTasks|after-drain|%s" % expr_str(n)[:50].replace("cast<(anonymous namespace)::BuildEngineImpl::TaskInfo *>", ""), "",
+                "state modified while tasks may still be reporting", f, n)
+    cv_wait_protocol(prog, r, f, "cancelRemainingTasks")
+
+
+def cv_wait_protocol(prog, r, f, fname):
+    ls = LockSets(f)
+    bf = BranchFacts(f, kill="assign")
+    waits = [c for c in f.calls() if (c.get("fn") or "").split("::")[-1] == "wait" and "finishedTaskInfosCondition" in expr_str(c.child("obj"))]
+    if not waits:
+        raise AnalysisBroken("%s: wait on finishedTaskInfosCondition not found" % fname)
+    for i, w in enumerate(waits):
+        held = ls.held_at_node(w) or set()
+        st = facts_at(bf, w)
+        ok = "finishedTaskInfosMutex" in held and has(st, "finishedTaskInfos.empty()", True)
+        # the emptiness test itself ran under the same lock (no unlock in between: the guard object is the lock argument)
+        tests = [c for c in f.calls("empty") if expr_str(c.child("obj")) == "finishedTaskInfos" and
+                 cfg.dominated_by(f, cfg.pos_of(f, w), lambda p, e, c=c: cfg.elem_node(f, e) is c)[0]]
+        ok = ok and bool(tests) and all("finishedTaskInfosMutex" in (ls.held_at_node(t) or set()) for t in tests)
+        r.check(ok, "%s|wait-protocol#%d" % (fname, i), "", "wait is not preceded by the emptiness test under finishedTaskInfosMutex (lost wake-up)", f, w)
+
+
+ENGINE_QUEUES_EXEMPT = {
+    "keyTable": "interning table, lives as long as the engine",
+    "ruleInfos": "rule table, lives as long as the engine",
+    "cancellationDelegates": "registered by clients, removed by clients",
+    "freeRuleScanRecords": "scan-record allocator, released by the build-scoped defer in build()",
+    "ruleScanRecordBlocks": "scan-record allocator, released by the build-scoped defer in build()",
+}
+
+
+def r_cancel_clears(prog, rep):
+    r = rep.rule("R-CANCEL-CLEARS", "every engine work queue that any engine function pushes to is cleared by the cancellation routine", floor=6)
+    pushed = {}
+    for f in engine_functions(prog):
+        for n in f.nodes:
+            if n.get("k") == "call" and "obj" in n and (n.get("fn") or "").split("::")[-1] in ("push_back", "insert", "emplace", "emplace_back"):
+                o = core(n.child("obj"))
+                if o is not None and o.get("k") == "member" and o.get("qn", "").startswith("(anonymous namespace)::BuildEngineImpl::") and \
+                        o.get("qn").count("::") == 2 and core(o.child("b")).get("k") == "this":
+                    pushed.setdefault(o["n"], f)
+    f = efn(prog, "cancelRemainingTasks")
+    cleared = set(expr_str(core(c.child("obj"))) for c in f.calls("clear") if "obj" in c)
+    for fld, g in sorted(pushed.items()):
+        if fld in ENGINE_QUEUES_EXEMPT:
+            r.exempt("queue|%s" % fld, ENGINE_QUEUES_EXEMPT[fld])
+        else:
+            r.check(fld in cleared, "queue|%s" % fld, "", "queue %s (pushed in %s) is not cleared on cancellation" % (fld, g.name.split("::")[-1]), f)
+    # every in-flight rule is reset: tasks' rules and scanning rules
+    ok = len(f.calls("RuleInfo::setCancelled")) >= 2 and any(fr.get("k") == "forrange" and expr_str(fr.child("range")) == "taskInfos" for fr in f.nodes) and \
+        any(fr.get("k") == "forrange" and expr_str(fr.child("range")) == "ruleInfos" for fr in f.nodes)
+    r.check(ok, "rules|in-flight-reset", "", "cancellation does not reset both the rules with tasks and the rules being scanned", f)
+
+
+def r_cancel_on_exit(prog, rep):
+    r = rep.rule("R-CANCEL-ON-EXIT",
+                 "every `return false` of the work loop is preceded in its iteration by the cancellation routine; the cancel "
+                 "flag is tested at the top of every iteration, before any task can be started or told its inputs are ready", floor=4)
+    f = efn(prog, "executeTasks")
+    outer = [n for n in f.nodes if n.get("k") == "while" and core(n.child("c")).get("k") == "bool"]
+    outer = [n for n in outer if not any(a.get("k") in ("while", "for", "do") for a in f.ancestors(n))]
+    if len(outer) != 1:
+        raise AnalysisBroken("executeTasks: outer loop not found")
+    head = first_pos(f, outer[0].child("body"))
+    rets = [n for n in f.nodes if n.get("k") == "return" and core(n.child("e")).get("k") == "bool" and core(n.child("e"))["v"] is False]
+    for i, x in enumerate(rets):
+        w = cfg.path_exists(f, (head[0], head[1] - 1), lambda p, e, xp=cfg.pos_of(f, x): p == xp, avoid=call_pred(f, ENGINE + "::cancelRemainingTasks"))
+        r.check(w is None, "executeTasks|return-false#%d" % i, "", "work loop abandoned without cancelling the remaining tasks", f, x)
+    # the flag test dominates task activity in the iteration
+    tests = [b for b in f.blocks.values() if b.cond() is not None and "buildCancelled" in expr_str(b.cond())]
+    r.check(len(tests) == 1, "executeTasks|cancel-flag-tested", "", "expected one test of buildCancelled in the work loop", f)
+    if tests:
+        tpos = cfg.term_pos(f, tests[0].id)
+        for nm in ("Task::inputsAvailable", ENGINE + "::demandRule", ENGINE + "::processRuleScanRequest"):
+            for c in f.calls(nm):
+                w = cfg.path_exists(f, (head[0], head[1] - 1), lambda p, e, cp=cfg.pos_of(f, c): p == cp, avoid=lambda p, e: p == tpos)
+                r.check(w is None, "executeTasks|flag-before-%s" % nm.split("::")[-1], "", "work started in an iteration before the cancel flag is looked at", f, c)
+    g = efn(prog, "build")
+    bf = BranchFacts(g, kill="assign")
+    rv = [n for n in g.nodes if n.get("k") == "return" and "result.value" in expr_str(n.child("e"))]
+    r.check(len(rv) == 1 and has(facts_at(bf, rv[0]), "success", True), "build|value-only-on-success", "", "build() can return a rule value after a failed/cancelled run", g)
+
+
+# =====================================================================  C06
+LOCK_TABLE = {
+    "finishedTaskInfos": "finishedTaskInfosMutex",
+    "inputRequests": "inputRequestsMutex",
+    "taskInfos": "taskInfosMutex",
+    "keyTable": "keyTableMutex",
+    "executionQueue": "executionQueueMutex",
+    "cancellationDelegates": "executionQueueMutex",
+}
+LOCK_EXEMPT = {
+    ("executeTasks", "inputRequests", "write"): ("seed", "seeding the first request before the work loop: no task exists yet"),
+    ("cancelRemainingTasks", "inputRequests", "write"): ("drain", "after the drain loop no task is outstanding"),
+    ("cancelRemainingTasks", "finishedTaskInfos", "write"): ("drain-final", "final clear after the drain loop: no task is outstanding"),
+    ("executeTasks", "taskInfos", "read"): ("engine-thread", "the engine thread is the only writer of taskInfos"),
+    ("getExecutionQueue", "executionQueue", "read"): ("queue-lifetime", "pointer is set before the first task starts and reset only after the queue destructor joined every lane"),
+    ("getKeyForID", "keyTable", "read"): ("stable-entries", "does not touch the table: maps an entry pointer back to its key"),
+}
+
+
+def r_lockset(prog, rep):
+    r = rep.rule("R-LOCKSET", "engine state shared with task threads is accessed under its mutex (writes always, reads unless exempt with a reason)", floor=20)
+    fns = [f for f in engine_functions(prog) if qmatch(f.cls, ENGINE) or ENGINE in (f.parent or "")]
+    entry = entry_locksets(prog, fns)
+    for f in fns:
+        ls = LockSets(f, entry.get(f.key, frozenset()))
+        fname = f.name.split("::")[-1] if not f.is_lambda else (f.parent or "").split("::")[-1].split("(")[0] + "::lambda"
+        for fld, mutex in LOCK_TABLE.items():
+            for n, kind in field_accesses(f, ENGINE + "::" + fld):
+                if f.raw.get("ctor") or f.raw.get("dtor"):
+                    continue
+                site = "%s|%s|%s" % (fname, fld, kind)
+                held = ls.held_at_node(n)
+                if held is None:
+                    continue
+                if mutex in held:
+                    r.ok(site, "", f, n)
+                    continue
+                ex = LOCK_EXEMPT.get((fname, fld, kind))
+                if ex and exempt_applies(prog, f, n, ex[0]):
+                    r.exempt(site, ex[1], f, n)
+                else:
+                    r.violation(site, "%s of %s without %s (held: %s)" % (kind, fld, mutex, sorted(held)), f, n)
+    # lock order: nested acquisitions use a consistent order
+    pairs = set()
+    for f in fns:
+        ls = LockSets(f, entry.get(f.key, frozenset()))
+        for b in f.blocks.values():
+            for j, e in enumerate(b.raw_elems):
+                from sa.lockset import _lock_decl
+                ld = _lock_decl(f, e)
+                if ld:
+                    for h in (ls.held_at((b.id, j)) or set()):
+                        pairs.add((h, ld[2]))
+    bad = [(a, b) for (a, b) in pairs if (b, a) in pairs and a < b]
+    r.check(not bad, "lock-order", "%d nested pairs, consistent" % len(pairs), "mutexes acquired in both orders: %s" % bad)
+
+
+def exempt_applies(prog, f, n, kind):
+    if kind == "seed":
+        # before the work loop
+        lp = loop_of(f, n)
+        return lp is None
+    if kind in ("drain", "drain-final"):
+        bf = BranchFacts(f, kill="assign")
+        return has(facts_at(bf, n), "numOutstandingUnfinishedTasks", True, ("==", "0"))
+    return True
+
+
+def r_cv_protocol(prog, rep):
+    r = rep.rule("R-CV-PROTOCOL", "both waits on the finished-task condition test the queue under the mutex in the same critical section; the "
+                                  "completion entry point pushes under the mutex and notifies on every path", floor=3)
+    cv_wait_protocol(prog, r, efn(prog, "executeTasks"), "executeTasks")
+    cv_wait_protocol(prog, r, efn(prog, "cancelRemainingTasks"), "cancelRemainingTasks")
+    f = efn(prog, "taskIsComplete")
+    ls = LockSets(f)
+    push = [c for c in f.calls("push_back") if expr_str(c.child("obj")) == "finishedTaskInfos"]
+    ok = len(push) == 1 and "finishedTaskInfosMutex" in (ls.held_at_node(push[0]) or set())
+    if ok:
+        thr, w = cfg.must_pass_through(f, cfg.pos_of(f, push[0]), lambda p, e: is_call(f, e, ["notify_one", "notify_all"]))
+        ok = thr
+    r.check(ok, "taskIsComplete|push-then-notify", "", "finished task is not pushed under the mutex and followed by a notify on every path", f)
+
+
+def r_hb_result(prog, rep):
+    r = rep.rule("R-HB-RESULT", "the cross-thread writes of result.value / signature / computedAt in the completion entry point all precede the "
+                                "locked push that publishes the task; the engine reads them only after popping under that lock", floor=2)
+    f = efn(prog, "taskIsComplete")
+    push = [c for c in f.calls("push_back") if expr_str(c.child("obj")) == "finishedTaskInfos"]
+    writes = [n for n in f.nodes if (n.get("k") == "bin" and n["op"] == "=" or n.get("k") == "call" and n.get("op") == "=") and
+              "result." in expr_str(n.child("l") if n.get("k") == "bin" else n.child("obj"))]
+    ok = len(push) == 1 and len(writes) >= 3
+    if ok:
+        pp = cfg.pos_of(f, push[0])
+        for wn in writes:
+            wp = cfg.pos_of(f, wn)
+            if cfg.path_exists(f, pp, lambda p, e, wp=wp: p == wp) is not None:
+                ok = False
+    r.check(ok, "taskIsComplete|writes-before-publish", "%d result writes" % len(writes), "a result field is written after the task was published", f)
+    g = efn(prog, "executeTasks")
+    sc = g.calls("RuleInfo::setComplete")
+    pops = [c for c in g.calls() if (c.get("fn") or "").split("::")[-1].startswith("pop") and expr_str(c.child("obj")) == "finishedTaskInfos"]
+    ls = LockSets(g)
+    ok = len(pops) == 1 and "finishedTaskInfosMutex" in (ls.held_at_node(pops[0]) or set()) and bool(sc)
+    r.check(ok, "executeTasks|pop-under-lock", "", "finished task popped without the mutex", g)
+
+
+def r_protocol_order(prog, rep):
+    r = rep.rule("R-PROTOCOL-ORDER",
+                 "task protocol: start precedes providePriorValue (given only with a prior result of the same signature), both "
+                 "precede any enqueue to the ready list; a task is readied only with waitCount == 0; inputsAvailable is called "
+                 "only after setComputing; the wait count is incremented in the critical section that queues the request; the "
+                 "completion and discovered-dependency entry points reject calls unless the rule is computing", floor=9)
+    f = efn(prog, "demandRule")
+    bf = BranchFacts(f, kill_calls_of=KILL)
+    st_ = f.calls("Task::start")
+    pv = f.calls("Task::providePriorValue")
+    rd = [c for c in f.calls("push_back") if expr_str(c.child("obj")) == "readyTaskInfos"]
+    if len(st_) != 1 or len(pv) != 1 or len(rd) != 1:
+        raise AnalysisBroken("demandRule: start=%d prior=%d ready=%d" % (len(st_), len(pv), len(rd)))
+    r.check(cfg.dominated_by(f, cfg.pos_of(f, pv[0]), lambda p, e: cfg.elem_node(f, e) is st_[0])[0], "demandRule|start-before-prior-value", "", "providePriorValue reachable before start", f, pv[0])
+    r.check(cfg.dominated_by(f, cfg.pos_of(f, rd[0]), lambda p, e: cfg.elem_node(f, e) is st_[0])[0] and
+            cfg.path_exists(f, cfg.pos_of(f, rd[0]), lambda p, e: cfg.elem_node(f, e) is pv[0]) is None,
+            "demandRule|ready-after-start-and-prior", "", "task can be readied before start / prior value", f, rd[0])
+    stp = facts_at(bf, pv[0])
+    r.check(has(stp, "builtAt", True, ("!=", "0")) and has(stp, "signature", True, ("==",)), "demandRule|prior-value-guard", "",
+            "prior value offered without a prior result of the same signature", f, pv[0])
+    r.check(expr_str(core(arg_nodes(pv[0])[1])) == "ruleInfo.result.value", "demandRule|prior-value-arg", "", "prior value is not the rule's stored value", f, pv[0])
+    # dependencies cleared before start (the task records afresh)
+    clr = [c for c in f.calls("DependencyKeyIDs::clear")]
+    r.check(len(clr) == 1 and cfg.dominated_by(f, cfg.pos_of(f, st_[0]), lambda p, e: cfg.elem_node(f, e) is clr[0])[0],
+            "demandRule|deps-cleared-before-start", "", "dependencies not reset before the task starts requesting", f)
+    # every ready push is under waitCount == 0
+    for g in engine_functions(prog):
+        for c in g.calls("push_back"):
+            if expr_str(c.child("obj")) != "readyTaskInfos":
+                continue
+            bg = BranchFacts(g, kill="assign")
+            stg = facts_at(bg, c)
+            ok = has(stg, "waitCount", False) or has(stg, "waitCount", True, ("==", "0"))
+            r.check(ok, "%s|ready-iff-no-waits" % g.name.split("::")[-1], "", "task readied while it still waits for inputs", g, c)
+    g = efn(prog, "executeTasks")
+    ia = g.calls("Task::inputsAvailable")
+    scp = g.calls("RuleInfo::setComputing")
+    pops = [c for c in g.calls("pop_front") if expr_str(c.child("obj")) == "readyTaskInfos"]
+    ok = len(ia) == 1 and len(scp) == 1 and len(pops) == 1
+    if ok:
+        sp = cfg.pos_of(g, scp[0])
+        ok = cfg.path_exists(g, cfg.pos_of(g, pops[0]), lambda p, e, ip=cfg.pos_of(g, ia[0]): p == ip, avoid=lambda p, e: p == sp) is None
+    r.check(ok, "executeTasks|computing-before-inputsAvailable", "", "inputsAvailable reachable before the rule is marked computing", g)
+    h = efn(prog, "addTaskInputRequest")
+    ls = LockSets(h)
+    inc = [n for n in h.nodes if n.get("k") == "un" and n["op"] == "++" and "waitCount" in expr_str(n.child("e"))]
+    pb = [c for c in h.calls("push_back") if expr_str(c.child("obj")) == "inputRequests"]
+    ok = len(inc) == 1 and len(pb) == 1 and "inputRequestsMutex" in (ls.held_at_node(inc[0]) or set()) and "inputRequestsMutex" in (ls.held_at_node(pb[0]) or set())
+    r.check(ok, "addTaskInputRequest|count-and-queue-together", "", "wait count and request queue are not updated in one critical section", h)
+    bh = BranchFacts(h, kill="assign")
+    r.check(bool(pb) and has(facts_at(bh, pb[0]), "isInProgressWaiting", True), "addTaskInputRequest|only-while-waiting", "",
+            "input requested by a task that is not waiting", h)
+    a = arg_nodes(pb[0])[0] if pb else None
+    if a is not None:
+        il = [x for x in a.walk() if x.get("k") == "initlist"]
+        vals = [expr_str(core(x)) for x in arg_nodes(il[0])] if il else []
+        r.check(vals[:4] == ["taskInfo", "inputID", "ruleInfo", "orderOnly"] and vals[5:6] == ["singleUse"], "addTaskInputRequest|request-fields", "",
+                "request built as %s" % vals, h)
+    for nm in ("taskIsComplete", "taskDiscoveredDependency"):
+        k = efn(prog, nm)
+        bk = BranchFacts(k, kill="assign")
+        acts = [c for c in k.calls("push_back")] + [n for n in k.nodes if n.get("k") == "bin" and n["op"] == "=" and "result." in expr_str(n.child("l"))]
+        ok = bool(acts) and all(has(facts_at(bk, x), "isInProgressComputing", True) for x in acts)
+        r.check(ok, "%s|only-while-computing" % nm, "", "entry point acts for a rule that is not computing", k)
+    # must-follow requests are order-only with the reserved id; plain requests are not
+    t = {"taskNeedsInput": ("inputID", "false", "false"), "taskNeedsSingleUseInput": ("inputID", "false", "true"), "taskMustFollow": ("kMustFollowInputID", "true", "false")}
+    for nm, want in t.items():
+        k = efn(prog, nm)
+        c = k.calls("addTaskInputRequest")
+        got = tuple(expr_str(core(x)) for x in arg_nodes(c[0])[2:5]) if c else ()
+        r.check(got == want, "%s|flags" % nm, "", "%s forwards (%s), expected %s" % (nm, got, want), k)
+
+
+def r_mustfollow(prog, rep):
+    r = rep.rule("R-MUSTFOLLOW", "in the finished-input loop provideValue is skipped exactly for order-only requests and the wait count is "
+                                 "decremented exactly once per request on both arms", floor=2)
+    f = efn(prog, "executeTasks")
+    pops = [c for c in f.calls("pop_back") if expr_str(c.child("obj")) == "finishedInputRequests"]
+    dec = f.calls(ENGINE + "::decrementTaskWaitCount")
+    if len(pops) != 1 or len(dec) != 1:
+        raise AnalysisBroken("finished-input loop: pops=%d decrements=%d" % (len(pops), len(dec)))
+    lp = loop_of(f, pops[0])
+    head = cfg.any_pos(f, lp.child("c"))
+    dp = cfg.pos_of(f, dec[0])
+    w = cfg.path_exists(f, cfg.pos_of(f, pops[0]), lambda p, e: p == head or e == "EXIT", avoid=lambda p, e: p == dp)
+    r.check(w is None and loop_of(f, dec[0]) is lp, "executeTasks|decrement-once", "", "a finished request does not decrement its task's wait count exactly once", f, dec[0])
+    pv = f.calls("Task::provideValue")
+    bf = BranchFacts(f, kill_calls_of=KILL)
+    ok = len(pv) == 1 and has(facts_at(bf, pv[0]), "request.orderOnly", False)
+    # and a non-order-only request cannot bypass provideValue
+    if ok:
+        pvp = cfg.pos_of(f, pv[0])
+        blocks_false = [b for b in f.blocks.values() if b.cond() is not None and expr_str(core(b.effective_cond())) == "request.orderOnly"]
+        ok = len(blocks_false) == 1
+        if ok:
+            b = blocks_false[0]
+            # false edge (succ 1) must lead to provideValue before the decrement
+            s = b.succs[1]
+            w = cfg.path_exists(f, (s, -1), lambda p, e: p == dp, avoid=lambda p, e: p == pvp)
+            ok = w is None
+    r.check(ok, "executeTasks|provide-unless-order-only", "", "provideValue is not called exactly for the non-order-only requests", f)
+    g = efn(prog, "decrementTaskWaitCount")
+    decs = [n for n in g.nodes if n.get("k") == "un" and n["op"] == "--" and "waitCount" in expr_str(n.child("e"))]
+    r.check(len(decs) == 1 and not loop_of(g, decs[0]), "decrementTaskWaitCount|single-decrement", "", "wait count decremented other than once", g)
+
+
+# =====================================================================  C07
+def r_didwork(prog, rep):
+    r = rep.rule("R-DIDWORK", "each work loop sets didWork before it processes an item, and the wait branch sets it whenever it was entered "
+                              "(a dropped assignment makes the engine report a cycle on an acyclic graph)", floor=6)
+    f = efn(prog, "executeTasks")
+    decl = [n for n in f.nodes if n.get("k") == "decl" and any(v["n"] == "didWork" for v in n["vars"])]
+    if len(decl) != 1:
+        raise AnalysisBroken("executeTasks: didWork declaration not found")
+    dpos = cfg.pos_of(f, decl[0])
+
+    def sets(p, e):
+        n = cfg.elem_node(f, e)
+        return n is not None and n.get("k") == "bin" and n["op"] == "=" and expr_str(n.child("l")) == "didWork" and core(n.child("r")).get("v") is True
+    work = [(ENGINE + "::processRuleScanRequest", "scan"), (ENGINE + "::scanRule", "input-request"), (ENGINE + "::decrementTaskWaitCount", "finished-input"),
+            ("Task::inputsAvailable", "ready-task"), ("RuleInfo::setComplete", "finished-task")]
+    for nm, label in work:
+        cs = f.calls(nm)
+        if not cs:
+            raise AnalysisBroken("executeTasks: %s not found" % nm)
+        for c in cs:
+            w = cfg.path_exists(f, dpos, lambda p, e, cp=cfg.pos_of(f, c): p == cp, avoid=sets)
+            r.check(w is None, "executeTasks|didWork|%s" % label, "", "an item is processed without recording that work was done", f, c)
+    waits = [c for c in f.calls() if (c.get("fn") or "").split("::")[-1] == "wait" and "finishedTaskInfosCondition" in expr_str(c.child("obj"))]
+    # the whole wait branch sets didWork, whether or not it actually waited
+    blk = [b for b in f.blocks.values() if b.cond() is not None and "numOutstandingUnfinishedTasks" in expr_str(b.cond()) and b.term["cls"] == "IfStmt"]
+    ok = len(blk) == 1
+    if ok:
+        s = blk[0].succs[0]
+        cyc = [b for b in f.blocks.values() if b.cond() is not None and b.term["cls"] == "IfStmt" and expr_str(core(b.effective_cond())) in ("(!didWork)",) and b is not blk[0]]
+        ok = len(cyc) == 1
+        if ok:
+            tp = cfg.term_pos(f, cyc[0].id)
+            w = cfg.path_exists(f, (s, -1), lambda p, e: p == tp, avoid=sets)
+            ok = w is None
+    r.check(ok, "executeTasks|didWork|wait-branch", "", "the wait branch can fall through to cycle detection without didWork", f)
+    bf = BranchFacts(f, kill="assign")
+    for w_ in waits:
+        st = facts_at(bf, w_)
+        r.check(has(st, "didWork", False) and has(st, "numOutstandingUnfinishedTasks", True, ("!=", "0")), "executeTasks|wait-only-when-idle-and-outstanding", "",
+                "engine waits although it did work or nothing is outstanding", f, w_)
+
+
+def r_cycle_trigger(prog, rep):
+    r = rep.rule("R-CYCLE-TRIGGER", "resolveCycle is entered only when an iteration did no work and tasks remain; an unresolved cycle is reported "
+                                    "through cycleDetected and leads to cancellation and failure", floor=4)
+    f = efn(prog, "executeTasks")
+    bf = BranchFacts(f, kill="assign")
+    rc = f.calls(ENGINE + "::resolveCycle")
+    if len(rc) != 1:
+        raise AnalysisBroken("executeTasks: resolveCycle sites = %d" % len(rc))
+    st = facts_at(bf, rc[0])
+    r.check(has(st, "didWork", False) and has(st, "taskInfos.empty()", False), "executeTasks|cycle-only-when-stuck", "",
+            "cycle resolution entered although work was done or no task remains", f, rc[0])
+    callers = [g for g in engine_functions(prog) for c in g.calls(ENGINE + "::resolveCycle")]
+    r.check(len(callers) == 1, "resolveCycle|single-caller", "", "resolveCycle has %d callers" % len(callers))
+    # unresolved -> cancel + return false
+    blocks = [b for b in f.blocks.values() if b.cond() is not None and "resolveCycle" in expr_str(b.cond())]
+    ok = len(blocks) == 1
+    if ok:
+        s = blocks[0].succs[1]
+        w = cfg.path_exists(f, (s, -1), lambda p, e: e == "EXIT" or (isinstance(e, int) and False), avoid=call_pred(f, ENGINE + "::cancelRemainingTasks"))
+        ok = w is None
+        # and that arm returns false
+        s_true = blocks[0].succs[0]
+    r.check(ok, "executeTasks|unresolved-cycle-cancels", "", "an unresolved cycle does not cancel the remaining tasks", f)
+    g = efn(prog, "resolveCycle")
+    bg = BranchFacts(g, kill="assign")
+    cd = g.calls("cycleDetected")
+    fc = g.calls(ENGINE + "::findCycle")
+    ok = len(cd) == 1 and len(fc) == 1 and has(facts_at(bg, cd[0]), "breakCycle", False)
+    if ok:
+        lst = [v for d in g.nodes if d.get("k") == "decl" for v in d["vars"] if "init" in v and any(x is fc[0] for x in g.nodes[v["init"]].walk())]
+        ok = bool(lst) and mentions(arg_nodes(cd[0])[0], {lst[0]["did"]})
+        rets = [n for n in g.nodes if n.get("k") == "return"]
+        after = [n for n in rets if cfg.path_exists(g, cfg.pos_of(g, cd[0]), lambda p, e, rp=cfg.pos_of(g, n): p == rp) is not None]
+        ok = ok and len(after) == 1 and core(after[0].child("e")).get("v") is False
+    r.check(ok, "resolveCycle|report-found-cycle-then-fail", "", "cycleDetected is not given the list findCycle produced, or the call does not fail afterwards", g)
+    ls = LockSets(g)
+    held = ls.held_at_node(fc[0]) if fc else set()
+    r.check(bool(fc) and {"taskInfosMutex", "finishedTaskInfosMutex"} <= (held or set()), "resolveCycle|consistent-snapshot", "", "cycle search runs without both task locks", g)
+    h = efn(prog, "findCycle")
+    first = [c for c in h.calls("getRuleInfoForKey") if "buildKey" in expr_str(c)]
+    r.check(bool(first), "findCycle|starts-at-requested-key", "", "cycle search does not start at the requested key", h)
+
+
+def r_waitfor_coverage(prog, rep):
+    r = rep.rule("R-WAITFOR-COVERAGE", "every container in which a waiting request can be parked is read by the cycle finder when it builds the "
+                                       "wait-for graph", floor=4)
+    parked = []
+    for rec in ("BuildEngineImpl::TaskInfo", "BuildEngineImpl::RuleScanRecord"):
+        for fl in prog.record(rec)["fields"]:
+            if "TaskInputRequest" in fl["type"] or "RuleScanRequest" in fl["type"]:
+                parked.append((rec.split("::")[-1], fl["n"]))
+    h = efn(prog, "findCycle")
+    for rec, fld in parked:
+        used = any(x.get("k") == "member" and x.get("n") == fld and x.get("qn", "").endswith("%s::%s" % (rec, fld)) for x in h.nodes)
+        # it must be iterated, not merely mentioned
+        iterated = any(fr.get("k") == "forrange" and any(x.get("k") == "member" and x.get("qn", "").endswith("%s::%s" % (rec, fld)) for x in fr.child("range").walk()) for fr in h.nodes)
+        r.check(used and iterated, "findCycle|reads %s::%s" % (rec, fld), "", "wait-for edges parked in %s::%s are invisible to cycle detection" % (rec, fld), h)
+    # every push site of a request parks it in one of these (or in an engine queue)
+    known = set(f for _, f in parked) | {"ruleInfosToScan", "inputRequests", "finishedInputRequests"}
+    for f in engine_functions(prog):
+        for c in f.calls():
+            if (c.get("fn") or "").split("::")[-1] not in ("push_back", "insert", "emplace_back") or "obj" not in c:
+                continue
+            t = c.child("obj").ctype()
+            if "TaskInputRequest" in t or "RuleScanRequest" in t:
+                o = core(c.child("obj"))
+                nm = o.get("n") if o is not None else None
+                r.check(nm in known, "%s|parks-in %s" % (f.name.split("::")[-1], nm), "", "request parked in a container the cycle finder does not know: %s" % nm, f, c)
+    # all scanning rules' records are visited
+    ok = any(fr.get("k") == "forrange" and expr_str(fr.child("range")) == "ruleInfos" for fr in h.nodes) and bool(h.calls("RuleInfo::isScanning"))
+    r.check(ok, "findCycle|all-scanning-rules", "", "cycle finder does not visit the scan record of every scanning rule", h)
